@@ -3,6 +3,7 @@
 package main
 
 import (
+	"encoding/json"
 	"flag"
 	"fmt"
 	"os"
@@ -20,7 +21,11 @@ func main() {
 	seed := flag.Int64("seed", 0, "seed (sample selection only)")
 	out := flag.String("out", "", "result file")
 	skipto := flag.Int64("skipto", 0, "resume: skip cases with index below this")
+	replay := flag.String("replay", "", "replay file: run the recorded program twice in-process under the recorded choices")
 	flag.Parse()
+	if *replay != "" {
+		os.Exit(runReplay(*replay))
+	}
 	f, ok := checks.Registry[*check]
 	if !ok {
 		fmt.Fprintln(h.RealStderr, "unknown check", *check)
@@ -33,4 +38,50 @@ func main() {
 		fmt.Fprintln(h.RealStderr, "write result:", err)
 		os.Exit(2)
 	}
+}
+
+// runReplay executes a recorded violation in-process under its recorded choices (iteration orders, sizes
+// of stdin reads), twice: both executions must agree (the schedule owns the nondeterminism), and the
+// observation is compared with the one recorded when the violation was found.  Exit 1: reproduced.
+func runReplay(path string) int {
+	jb, err := os.ReadFile(path)
+	if err != nil {
+		fmt.Fprintln(h.RealStderr, err)
+		return 2
+	}
+	var r fw.Replay
+	if err := json.Unmarshal(jb, &r); err != nil {
+		fmt.Fprintln(h.RealStderr, err)
+		return 2
+	}
+	run := func() h.Outcome {
+		o := h.Opts{Stdin: r.Stdin, StdinSchedule: r.StdinSch, StdinMode: r.StdinMode, Prefix: r.Choices, Fuel: 60_000_000}
+		if !r.StdinSch {
+			o.StdinMode = 1
+		}
+		switch r.Mode {
+		case "repl":
+			return h.RunRepl(r.Program, o)
+		case "file":
+			return h.RunFile(r.Program, o)
+		}
+		return h.Outcome{BadReplay: "mode " + r.Mode + " has no in-process replay with choices"}
+	}
+	a, b := run(), run()
+	out := h.RealStdout
+	fmt.Fprintf(out, "--- in-process under the recorded choices %v (stdin schedule %v): status=%d panic=%q diverged=%v\nstdout: %q\nstderr: %q\n", r.Choices, r.StdinSch, a.Status, a.Panic, a.Diverged, a.Stdout, a.Stderr)
+	if a.BadReplay != "" {
+		fmt.Fprintln(out, "BAD REPLAY:", a.BadReplay)
+		return 2
+	}
+	if a.Stdout != b.Stdout || a.Stderr != b.Stderr || a.Status != b.Status {
+		fmt.Fprintln(out, "DIVERGENCE: two executions under the same choices differ")
+		return 2
+	}
+	if a.Stdout == r.InStdout && a.Stderr == r.InStderr && a.Status == r.InStatus {
+		fmt.Fprintln(out, "REPRODUCED: the execution under the recorded choices is as recorded in the violation")
+		return 1
+	}
+	fmt.Fprintln(out, "NOT REPRODUCED: the execution under the recorded choices differs from the recorded one")
+	return 0
 }
